@@ -372,7 +372,14 @@ func runC12(c *Check) {
 	}
 }
 
-func init() { extraC12 = func(c *Check) { c.ruleFirstLinkChecked("R5") } }
+func init() {
+	extraC12 = func(c *Check) {
+		c.ruleFirstLinkChecked("R5")
+		c.ruleTrustedOnlyFromTrustedSource("R6")
+		c.ruleRevertRemovesRevertedHeights("R7")
+		c.ruleIndexBoundOnSameIndex("R8", "spynode.fetchSpentOutputs")
+	}
+}
 
 func lastIf(b *ssa.BasicBlock) (*ssa.If, bool) {
 	if n := len(b.Instrs); n > 0 {
